@@ -97,6 +97,12 @@ def retry_cases(backends: tuple = ("asyncio", "trio")):
                         for backend in backends:
                             yield {"kind": "reentrant", "family": "retry", "backend": backend, "sched_seed": 0, "racers": racers,
                                    "cps": cps, "api": api, "nested": nested, "stagger": stagger}
+    # ... the same with a generation that takes long (virtual seconds) and with many other factories generated before
+    for dur, pre in ((35, 0), (100, 0), (0, 15), (0, 16), (0, 20), (35, 16)):
+        for racers in (2, 3):
+            for backend in backends:
+                yield {"kind": "reentrant", "family": "retry", "backend": backend, "sched_seed": 0, "racers": racers, "cps": 1,
+                       "api": "m_async", "nested": False, "stagger": 0, "dur": dur, "pre": pre}
 
 
 def run_retry(case: dict, prop: str, classes: set[str]) -> Outcome:
@@ -122,6 +128,8 @@ def run_retry(case: dict, prop: str, classes: set[str]) -> Outcome:
             st["calls"] += 1
             n = st["calls"]
             await checkpoints(case["cps"])
+            if case.get("dur"):
+                await anyio.sleep(case["dur"])  # (virtual seconds: generating may take long)
             if n == 1:
                 raise Broken("first call")
             o = R0(("product", n))
@@ -154,6 +162,9 @@ def run_retry(case: dict, prop: str, classes: set[str]) -> Outcome:
                 results.append(("raise", exc))
 
         async def scenario(ctx: Any) -> None:
+            for k in range(case.get("pre", 0)):
+                # other factories already generated in this context before the race
+                await ctx.get_resource(R2, f"pre{k}")
             cm = ctx.resource_added.stream_events(max_queue_size=1000)
             it = await cm.__aenter__()
             results: list = []
@@ -194,6 +205,11 @@ def run_retry(case: dict, prop: str, classes: set[str]) -> Outcome:
 
         async with Context() as root:
             root.add_resource_factory(factory, NAME, types=[R0])
+            for k in range(case.get("pre", 0)):
+                async def other(k: int = k) -> Any:
+                    await checkpoints(1)
+                    return R2(("pre", k))
+                root.add_resource_factory(other, f"pre{k}", types=[R2])
             if case["nested"]:
                 async with Context() as child:
                     await scenario(child)
